@@ -4,7 +4,7 @@
 use crate::mock::MockIdealGas;
 use feos::pcsaft::{PcSaft, PcSaftParameters, PcSaftRecord};
 use feos_core::parameter::{Parameter, PureRecord};
-use feos_core::{Contributions, DensityInitialization, EquationOfState, ReferenceSystem, Residual, SolverOptions, State};
+use feos_core::{Contributions, DensityInitialization, EquationOfState, PhaseEquilibrium, ReferenceSystem, Residual, SolverOptions, State};
 use feos_verif::configs::{params, Rng};
 use ndarray::arr1;
 use quantity::*;
@@ -107,6 +107,7 @@ pub fn run(seed: u64, nrec: usize, ntp: usize, newton_every: usize) -> SweepOut 
     let (mut n_newton, mut n_newton_ok, mut worst_newton) = (0usize, 0usize, 0.0f64);
     let mut newton_err: Vec<Value> = Vec::new();
     let mut crit_fail: Vec<String> = Vec::new();
+    let (mut n_unreach, mut n_unreach_ok, mut n_unreach_err) = (0usize, 0usize, 0usize);
     for &ri in &chosen {
         let (name, rec) = &all[ri];
         let pcs = Arc::new(PcSaft::new(Arc::new(PcSaftParameters::new_pure(rec.clone()).unwrap())));
@@ -201,12 +202,16 @@ pub fn run(seed: u64, nrec: usize, ntp: usize, newton_every: usize) -> SweepOut 
                 }
             }
         }
+        // caloric targets that NO single-phase state reaches (two-phase (p,h) / (p,s) flash-type requests, (T,h)/(T,s) inside the
+        // dome, out-of-range (V,u)): the constructor may fail, but whatever it returns must carry the requested value
+        unreachable_targets(&eos, name, tc, pc, &mut rng, &mut n_unreach, &mut n_unreach_ok, &mut n_unreach_err, &mut failures);
     }
     SweepOut {
         json: json!({
             "records_total": total_records, "records_used": chosen.len(), "tp_cases": n_tp, "tp_ok": n_ok, "worst_rel_pressure_mismatch": worst_p,
             "two_root_points": n_two_roots, "gibbs_rule_checks": n_gibbs, "newton_cases": n_newton, "newton_ok": n_newton_ok,
             "newton_worst_scaled_residual": worst_newton, "newton_not_converged": newton_err.len(), "newton_not_converged_samples": newton_err.iter().take(5).collect::<Vec<_>>(),
+            "unreachable_target_cases": n_unreach, "unreachable_target_states_returned_ok": n_unreach_ok, "unreachable_target_errors": n_unreach_err,
             "critical_point_failures": crit_fail, "failures": failures, "samples": samples,
             "window": "T in [0.45,1.65] T_c, p in [1e-4,10] p_c (log-uniform), hints none/vapor/liquid; corners always included",
             "p_rtol": P_RTOL,
@@ -308,6 +313,120 @@ fn newton_cases(
                     }
                 }
                 Err(e) => errs.push(json!({"wrapper": kind, "record": name, "T_over_Tc": tr, "p_over_pc": prr, "start_factor": o, "error": e.to_string()})),
+            }
+        }
+    }
+}
+
+/// (p,h) and (p,s) requests between the saturated-liquid and saturated-vapour values at a subcritical pressure, (T,h)/(T,s) requests
+/// between the two saturated values at the saturation temperature, and (V,u) requests far below the ideal-gas range: an error is fine,
+/// a returned state must have the requested h / s / u (post-condition of the accepted Newton step with the derivative of the RETURNED
+/// state, x4 slack + round-off floor) and echo p / T / V and the amounts.
+#[allow(clippy::too_many_arguments)]
+fn unreachable_targets(
+    eos: &Arc<Eos>,
+    name: &str,
+    tc: Temperature,
+    pc: Pressure,
+    rng: &mut Rng,
+    n: &mut usize,
+    n_ok: &mut usize,
+    n_err: &mut usize,
+    failures: &mut Vec<Value>,
+) {
+    let c = Contributions::Total;
+    let moles = arr1(&[1.0]) * MOL;
+    let _ = tc;
+    for pr in [rng.range(0.03, 0.2), rng.range(0.2, 0.6), rng.range(0.6, 0.92)] {
+        let p = pr * pc;
+        let vle = match PhaseEquilibrium::pure(eos, p, None, SolverOptions::default()) {
+            Ok(v) => v,
+            Err(_) => continue,
+        };
+        let (sv, sl) = (vle.vapor(), vle.liquid());
+        let tsat = sv.temperature;
+        let (hv, hl) = (sv.molar_enthalpy(c), sl.molar_enthalpy(c));
+        let (ssv, ssl) = (sv.molar_entropy(c), sl.molar_entropy(c));
+        let (uv, ul) = (sv.molar_internal_energy(c), sl.molar_internal_energy(c));
+        for qi in 0..3 {
+            let q = [0.3, 0.5, 0.7][qi] + rng.range(-0.08, 0.08);
+            let h = hl + q * (hv - hl);
+            let s = ssl + q * (ssv - ssl);
+            let u = ul + q * (uv - ul);
+            let ti = Some(tsat * (1.0 + rng.range(-0.03, 0.03)));
+            let hints = [DensityInitialization::None, DensityInitialization::Vapor, DensityInitialization::Liquid];
+            let hint = hints[rng.below(3)];
+            let vmid = moles.sum() / (sl.density * (1.0 - q) + sv.density * q);
+            let cases: Vec<(&str, feos_core::EosResult<State<Eos>>)> = vec![
+                ("ph", State::new_nph(eos, p, h, &moles, hint, ti)),
+                ("ps", State::new_nps(eos, p, s, &moles, hint, ti)),
+                ("ph_default_start", State::new_nph(eos, p, h, &moles, hint, None)),
+                ("th", State::new_nth(eos, tsat, h, &moles, hint)),
+                ("ts", State::new_nts(eos, tsat, s, &moles, hint)),
+                ("vu", State::new_nvu(eos, vmid, u - 40.0 * (uv - ul), &moles, ti)),
+            ];
+            for (kind, r) in cases {
+                *n += 1;
+                let st = match r {
+                    Ok(st) => st,
+                    Err(_) => {
+                        *n_err += 1;
+                        continue;
+                    }
+                };
+                let tst = st.temperature;
+                let atol_t = 1e-8 * KELVIN + 1e-10 * tst;
+                let (res, bound, scale, echo_ok, target): (f64, f64, f64, bool, f64) = match kind {
+                    "ph" | "ph_default_start" => (
+                        (st.molar_enthalpy(c) - h).convert_to(JOULE / MOL).abs(),
+                        (st.molar_isobaric_heat_capacity(c) * atol_t).convert_to(JOULE / MOL).abs(),
+                        (hv - hl).convert_to(JOULE / MOL).abs(),
+                        ((st.pressure(c) - p) / p).into_value().abs() <= P_RTOL,
+                        h.convert_to(JOULE / MOL),
+                    ),
+                    "ps" => (
+                        (st.molar_entropy(c) - s).convert_to(JOULE / MOL / KELVIN).abs(),
+                        (st.molar_isobaric_heat_capacity(c) / tst * atol_t).convert_to(JOULE / MOL / KELVIN).abs(),
+                        (ssv - ssl).convert_to(JOULE / MOL / KELVIN).abs(),
+                        ((st.pressure(c) - p) / p).into_value().abs() <= P_RTOL,
+                        s.convert_to(JOULE / MOL / KELVIN),
+                    ),
+                    "th" | "ts" => {
+                        // density Newton: slope of the residual at the returned state by a central difference
+                        let drho = st.density * 1e-5;
+                        let sp = State::new_nvt(eos, tsat, st.total_moles / (st.density + drho), &moles).unwrap();
+                        let sm = State::new_nvt(eos, tsat, st.total_moles / (st.density - drho), &moles).unwrap();
+                        let atol_rho = (Density::from_reduced(1e-12) + 1e-10 * st.density).convert_to(MOL / METER.powi::<typenum::P3>());
+                        let dr = (2.0 * drho).convert_to(MOL / METER.powi::<typenum::P3>());
+                        if kind == "th" {
+                            let slope = ((sp.molar_enthalpy(c) - sm.molar_enthalpy(c)).convert_to(JOULE / MOL) / dr).abs();
+                            ((st.molar_enthalpy(c) - h).convert_to(JOULE / MOL).abs(), slope * atol_rho, (hv - hl).convert_to(JOULE / MOL).abs(),
+                             st.temperature == tsat, h.convert_to(JOULE / MOL))
+                        } else {
+                            let slope = ((sp.molar_entropy(c) - sm.molar_entropy(c)).convert_to(JOULE / MOL / KELVIN) / dr).abs();
+                            ((st.molar_entropy(c) - s).convert_to(JOULE / MOL / KELVIN).abs(), slope * atol_rho,
+                             (ssv - ssl).convert_to(JOULE / MOL / KELVIN).abs(), st.temperature == tsat, s.convert_to(JOULE / MOL / KELVIN))
+                        }
+                    }
+                    _ => (
+                        (st.molar_internal_energy(c) - (u - 40.0 * (uv - ul))).convert_to(JOULE / MOL).abs(),
+                        (st.molar_isochoric_heat_capacity(c) * atol_t).convert_to(JOULE / MOL).abs(),
+                        (uv - ul).convert_to(JOULE / MOL).abs(),
+                        st.volume == vmid,
+                        (u - 40.0 * (uv - ul)).convert_to(JOULE / MOL),
+                    ),
+                };
+                let lim = 4.0 * bound + 1e-10 * scale;
+                let amounts_ok = st.moles.get(0) == moles.get(0);
+                if !(res <= lim) || !echo_ok || !amounts_ok {
+                    failures.push(json!({"kind": "caloric_target_not_met", "wrapper": kind, "record": name, "p_over_pc": pr, "p_Pa": p.convert_to(PASCAL),
+                        "T_sat_K": tsat.convert_to(KELVIN), "quality_like_fraction": q, "requested": target, "residual": res, "allowed": lim,
+                        "saturation_gap": scale, "echo_ok": echo_ok, "amounts_ok": amounts_ok,
+                        "returned_T_K": tst.convert_to(KELVIN), "returned_rho_mol_m3": st.density.convert_to(MOL / METER.powi::<typenum::P3>()),
+                        "initial_temperature_K": ti.map(|t| t.convert_to(KELVIN))}));
+                } else {
+                    *n_ok += 1;
+                }
             }
         }
     }
